@@ -669,6 +669,18 @@ func cmpG[T ~int | ~float64](v, lo T) int {
 	}
 }
 `}}},
+		// two calls with visible effects, in this order
+		Base{Name: "F", ID: "callorder", ManualOnly: true, Src: "func F" + sig + ` {
+	sink(a)
+	sink(b)
+	return a + b, x
+}
+`, Manual: []ManualEdit{{"the two calls exchanged (sink(b) now runs before sink(a): the recorded effects come in the other order)", "func F" + sig + ` {
+	sink(b)
+	sink(a)
+	return a + b, x
+}
+`}}},
 		// a comparison that is ALSO used as a value, followed by an ordinary >= test
 		mk("sharedcmp", `	over := a > b
 	n := 0
